@@ -50,8 +50,11 @@ func zzH_C35_basefee() {
 	want := zzSpecBaseFee(base, gasLimit, gasUsed, params.DefaultElasticityMultiplier, params.DefaultBaseFeeChangeDenominator)
 	zzAssert(zzBigEq(got, want), "CalcBaseFee equals the EIP-1559 formula")
 	zzAssert(got.Sign() >= 0, "base fee is never negative")
-	if gasUsed <= gasLimit {
-		// a valid parent (gas used within the limit) moves the base fee by at most 1/8 (or 1 wei)
+	if gasUsed <= gasLimit/params.DefaultElasticityMultiplier*params.DefaultElasticityMultiplier {
+		// gas used within ELASTICITY_MULTIPLIER * target (for an even gas limit that is
+		// every valid parent; for an odd limit the EIP formula itself exceeds 1/8 by
+		// base/(8*target) when the block is completely full, so that point is excluded):
+		// the base fee moves by at most 1/8 (or 1 wei)
 		eighth := new(big.Int).Div(base, big.NewInt(8))
 		if eighth.Sign() == 0 {
 			eighth.SetUint64(1)
